@@ -737,6 +737,20 @@ func genC15(r *Rng, tier string) c15In {
 				}
 			}
 			res = append(res, e)
+			// "revoked, then annotated again": two annotations on the same fresh reference entry, a
+			// skip and a plain note in either order - which of the two a reader meets first must not matter
+			if e.K == "ref" && r.Chance(25) {
+				id := base + len(res) - 1
+				if len(shared) == 0 && base == 0 {
+					id = len(res) - 1
+				}
+				first, second := true, false
+				if r.Chance(30) {
+					first, second = false, true
+				}
+				res = append(res, c15Entry{K: "ann", IDs: []int{id}, Skip: first, Msg: "revoked: bad push"})
+				res = append(res, c15Entry{K: "ann", IDs: []int{id}, Skip: second, Msg: "note"})
+			}
 		}
 		return res
 	}
@@ -778,6 +792,11 @@ func genC15(r *Rng, tier string) c15In {
 		}
 		if !rok {
 			rt = -1
+		}
+		if in.Op == "sync" && lt < 0 && r.Chance(50) {
+			// the branch exists locally although no unrevoked entry of the local log names it
+			// (sync only ever moves references that exist locally)
+			lt = r.Intn(nT)
 		}
 		if in.Op == "sync" && nl > 0 && nr == 0 && rok {
 			// local ahead: the remote reference is where the shared log says (or, rarely, elsewhere)
